@@ -39,6 +39,11 @@ type Checker struct {
 	// SkipKnown makes Step return ErrKnownFinding instead of a violation for
 	// cases matching SigFlushNoopAfterReadFromError.
 	SkipKnown bool
+	// MinSize, if > 0, is a payload capacity the configuration guarantees (the
+	// documented buffer size minus the largest header): data up to it "fits the
+	// buffer" whatever Size() reports. Buffers never shrink, so it holds for the
+	// whole run.
+	MinSize int
 
 	msg      []ref.Frame // frames of the open message
 	sent     int         // payload bytes of msg
@@ -130,7 +135,7 @@ func (c *Checker) Step(a Action, r Result) error {
 		c.acc = append(c.acc, a.Data()...)
 		c.wcalls++
 		c.setters++
-		if len(c.acc) > r.Before.Size {
+		if len(c.acc) > r.Before.Size && len(c.acc) > c.MinSize {
 			c.fits = false
 		}
 		if c.Cfg.NoFlush && len(frames) > 0 {
@@ -153,7 +158,7 @@ func (c *Checker) Step(a Action, r Result) error {
 		}
 		c.acc = append(c.acc, a.Data()[:r.N]...)
 		c.wcalls++
-		if len(c.acc) >= r.Before.Size {
+		if len(c.acc) >= r.Before.Size && len(c.acc) >= c.MinSize {
 			c.fits = false
 		}
 		if c.Cfg.NoFlush && len(frames) > 0 {
